@@ -178,7 +178,7 @@ def _attach(pid, db, out, inject):
             s = ""
         if s and "TracerPid:\t0\n" not in s:
             return p
-        if p.poll() is not None or time.time() - t0 > 10:
+        if p.poll() is not None or time.time() - t0 > 40:     # a loaded machine attaches slowly
             try:
                 p.kill()
             except OSError:
